@@ -1,5 +1,6 @@
 """C12 — Integer, Date and String primitives are exact inverses within their domain."""
 import vlib
+from props import common
 
 RULE = ("vectors computed by TLC from Prims.tla: widths 1-2 exhaustively (range ops), boundary values 2^(8n)-1, 2^(8n), 2^63-1, "
         "seeded pseudo-random values of every width x sizes -1..9; every decode of all 1- and 2-byte strings; string reader on every "
@@ -12,6 +13,8 @@ ASSUME = ["TLC evaluates the reference codecs (Prims.tla, Bytes.tla limb arithme
 
 
 def check(run):
+    # who owns the memory behind a result: the machine behind the kept-result chains, the "again" twins and the edited struct copies
+    common.mc_fresh(run, controls=("pool",))
     inv = ["RoundTrip", "ReaderContract", "LimbLaws"]
     run.mc("MC_Prims", consts={"MaxW": 2, "FullAlpha": True}, invariants=inv, tag="MC_Prims_full2")
     run.mc("MC_Prims", consts={"MaxW": 4 if run.tier == "quick" else 5, "FullAlpha": False}, invariants=inv, tag="MC_Prims_alpha")
@@ -21,7 +24,7 @@ def check(run):
 
 META = {
     "level": "model_checking",
-    "technique": "TLA+ reference codec (Prims.tla) model-checked exhaustively by TLC on the append graph; TLC-generated vectors replayed into the Go primitives; recorded trace validated by TLC (Trace.tla)",
+    "technique": "TLA+ reference codec (Prims.tla) model-checked exhaustively by TLC on the append graph; TLC-generated vectors replayed into the Go primitives; recorded trace validated by TLC (Trace.tla); heap machine MC_Fresh (recycled-buffer negative control) behind the kept-result chains",
     "text": ("TLC exhausts the reference Integer/String/Date codec over all byte strings of width <= 2 (and a 15-symbol alphabet to width 4-5) "
              "proving it is an exact inverse pair, prefix-free and append-independent; the same operators then judge every recorded call of the "
              "real constructors/readers/accessors: widths 1-2 exhaustively, all size arguments -1..9, the 2^(8n) boundaries, every prefix of "
